@@ -11,25 +11,26 @@ import subprocess
 from .assemble import VERIF, REPO
 
 FAMILIES = {
-    'C01': ['stake', 'rewards', 'batch', 'ibc', 'recover'],
+    'C01': ['stake', 'rewards', 'batch', 'ibc', 'recover', 'instantiate'],
     'C02': ['stake', 'rewards', 'batch', 'fee_withdraw', 'ibc', 'recover'],
     'C03': ['stake', 'batch', 'recover'],
     'C04': ['stake', 'batch'],
-    'C05': ['batch'],
-    'C06': ['batch'],
+    'C05': ['batch', 'funds'],
+    'C06': ['batch', 'funds', 'instantiate'],
     'C07': ['recover', 'ibc', 'stake'],
-    'C08': ['auth', 'ownership', 'recover', 'rewards', 'batch'],
+    'C08': ['auth', 'ownership', 'recover', 'rewards', 'batch', 'funds', 'instantiate'],
     'C09': ['rewards', 'batch', 'config', 'migrate'],
-    'C10': ['halt', 'auth'],
+    'C10': ['halt', 'auth', 'instantiate'],
     'C11': ['rewards', 'fee_withdraw'],
     'C12': ['ownership', 'treasury_ownership'],
     'C13': ['treasury'],
-    'C14': ['validation', 'config'],
+    'C14': ['validation', 'config', 'instantiate'],
     'C15': ['stake', 'rewards', 'batch', 'auth'],
     'C17': ['queries'],
     'C18': ['migrate'],
+    'C19': ['instantiate', 'stake', 'batch'],
     'C16': ['stake', 'rewards', 'batch', 'auth', 'ownership', 'fee_withdraw', 'validation', 'recover', 'halt', 'config',
-            'queries', 'treasury', 'treasury_ownership', 'ibc'],
+            'queries', 'treasury', 'treasury_ownership', 'ibc', 'funds', 'instantiate', 'migrate'],
 }
 CASES = 3000
 
